@@ -560,6 +560,12 @@ fn gen_base(rng: &mut Rng, presigned: bool) -> Base {
     let body = if matches!(method.as_str(), "PUT" | "POST") {
         let n = if rng.chance(1, 5) { 0 } else { rng.range(1, 120) as usize };
         rng.bytes(n)
+    } else if !presigned && matches!(method.as_str(), "GET" | "HEAD") && rng.chance(1, 5) {
+        // a body on GET / HEAD is an ordinary case (former class `sigv4-get-head-body`): the payload line follows
+        // x-amz-content-sha256 and the body whatever the method; the caller draws the payload mode (signed digest,
+        // UNSIGNED-PAYLOAD, streaming) independently, so all three occur, on both sinks
+        let n = rng.range(1, 120) as usize;
+        rng.bytes(n)
     } else if rng.chance(1, 25) && !backend {
         rng.bytes(5)
     } else {
@@ -1035,7 +1041,7 @@ pub fn generate_header(rng: &mut Rng, n: u64, emit: &mut dyn FnMut(Vec<String>))
                 all.push(c);
             }
         }
-        if mode == 0 && base.body.is_empty() && base.method != "GET" && base.method != "HEAD" && !base.signed.iter().any(|n| n == "content-length") {
+        if mode == 0 && base.body.is_empty() && !base.signed.iter().any(|n| n == "content-length") {
             // a request signed for the EMPTY payload (its x-amz-content-sha256 is the digest of the empty string) to which a body
             // is attached afterwards, with no or a zero Content-Length (unsigned): the digest of what arrives is not the signed one
             let mut c = valid.clone();
@@ -1789,10 +1795,6 @@ pub fn generate_mix(rng: &mut Rng, n: u64, emit: &mut dyn FnMut(Vec<String>)) {
                 // repeated parameter names are C05's open class `sigv4-dup-query-unsorted`: not the subject here
                 let mut names = std::collections::HashSet::new();
                 base.query.retain(|(k, _)| names.insert(k.clone()));
-                // likewise a body on GET / HEAD (`sigv4-get-head-body`)
-                if base.method == "GET" || base.method == "HEAD" {
-                    base.body = Vec::new();
-                }
                 let mode = rng.pick(&[0u64, 1]);
                 let (tag, extra): (&str, Vec<(&str, String)>) = match rng.below(6) {
                     0 => ("v2query-bare", vec![("Signature", "c2ln".into())]),
